@@ -52,6 +52,10 @@ SkOK(A, sk) == /\ Len(sk) >= 2 /\ sk[1] \in 0..5
                /\ IF sk[1] = 0 THEN Len(sk) = 2 /\ sk[2] \in DOMAIN A /\ IsAtom(A[sk[2]])
                   ELSE /\ (sk[1] = 1 => Len(sk) = 2) /\ (sk[1] \in {4, 5} => Len(sk) = 3)
                        /\ \A i \in Kids(sk) : SkOK(A, sk[i])
+\* equality of skeletons that never compares an atom index with a sub-skeleton
+RECURSIVE SkEq(_, _)
+SkEq(x, y) == /\ Len(x) = Len(y) /\ x[1] = y[1]
+              /\ IF x[1] = 0 THEN x[2] = y[2] ELSE \A i \in Kids(x) : SkEq(x[i], y[i])
 AtomSk(i) == <<0, i>>
 NotSk(x) == <<1, x>>
 \* ExpressionManager.And / Or of a list: empty -> constant, singleton -> the element
